@@ -685,6 +685,17 @@ fn gen_byz(seed: u64, prop: &str) -> Plan {
     }
     b.plan.flags = vec!["byz".into(), format!("byz_{}", prop)];
     if prop == "C06" {
+        // some peers serve one check-point interval of tampered filters with consistent hashes
+        // - exactly one such peer, at least two honest-vector peers and a quorum of two, so that
+        // it can never win the quorum of the "latest hashes" path on its own
+        let np = b.plan.peers.len();
+        if np >= 3 && b.rng.chance(1, 2) {
+            let p = b.rng.usize_below(np);
+            b.plan.peers[p].lie_from = b.rng.range(2, b.plan.initial_blocks.max(3));
+            b.plan.peers[p].lie_salt = (b.rng.next_u64() | 2) & !1;
+            b.plan.knobs.max_outbound = b.plan.knobs.max_outbound.max(3);
+            b.plan.knobs.check_point_interval = pick(&mut b.rng, &[4u64, 8, 16]);
+        }
         b.plan.flags.push("byz_filters".into());
         b.plan.flags.push("index".into());
     }
